@@ -69,6 +69,18 @@ def run(ctx):
     cases = gen_cases(ctx, thorough)
     lines = [' '.join(str(x) for x in c) for c in cases]
     impl = vlib.run_lines(exe, lines)
+    # the same calls with the thread's floating-point rounding direction set upward / downward / toward zero (an application that does interval
+    # arithmetic around the library): the functions are integer arithmetic or exact binary64 operations, so nothing may change
+    sub = list(range(0, len(lines), 1 if thorough else 5))
+    for mode, mname in ((1, 'FE_UPWARD'), (2, 'FE_DOWNWARD'), (3, 'FE_TOWARDZERO')):
+        mo_ = vlib.run_lines(exe, ['fenv %d' % mode] + [lines[i] for i in sub] + ['fenv 0'])[1:-1]
+        nbad = 0
+        for i, o in zip(sub, mo_):
+            ctx.count((mname, lines[i]))
+            if o.strip() != impl[i].strip():
+                nbad += 1
+                if nbad <= 3: ctx.report('depends-on-rounding-direction', '%s gives %s under %s and %s under the default rounding direction' % (lines[i][:80], o.strip()[:40], mname, impl[i].strip()[:40]),
+                                         {'case': lines[i], 'fenv': mname, 'impl_default': impl[i][:200], 'impl_mode': o[:200]})
     modelable = [i for i, c in enumerate(cases) if c[0] in ('msf', 'aph', 'mst', 'dtot', 't32tod')]
     mout = vlib.run_model([lines[i] for i in modelable])
     found = False
